@@ -32,7 +32,7 @@ CHECKS = {
    engine='genc-doc',
    category='translation_validation',
    text='Second sentence of C04 (the emitted step function never reads or writes outside the arrays it declares), decided per emitted document for ALL contexts and ALL callback behaviours: every pointer/bounds/overflow/conversion check CBMC generates in the emitted uscxml_step(), executable-content functions and bit_* helpers with the concrete emitted tables; the dfcc frame of a contract on uscxml_step; life-cycle and dequeue-order postconditions; sizing facts of the generator. The unbounded DEQUEUE_EVENT loop is closed by a loop contract and a glue lemma. Of the first sentence, against the algorithm of the Recommendation instead of the interpreter (which is C++ and out of reach): the configuration after every step equals a spec function of one microstep (optimal enabled transition set, exit set, entry set with history and default completion; engines/genc/spec_step.h) for every legal pre-state and every answer of is_matched/is_true; done events are raised exactly as 3.7 prescribes; for charts following a log convention (all generated charts) the onexit / transition / onentry content that runs is exactly exit set / transition set / entry set, in the prescribed order. Equality with the trace of the interpreter itself is NOT decided.',
-   note='Trusted: CBMC 6.11, build of uscxml-transform from /repo. Assumed: callbacks honour const ctx and return OK or an error code; derived preconditions listed in the evidence; machines nested in <invoke><content> are validated like documents of their own, those pulled in by src= are not; is_matched answers are a function of the transition and is_true answers of the condition text within one step; documents with nested histories are excluded from the spec-function clauses; <foreach> bounded to 2 items in the harness.',
+   note='Trusted: CBMC 6.11, build of uscxml-transform from /repo. Assumed: callbacks honour const ctx and return OK or an error code; derived preconditions listed in the evidence; machines nested in <invoke><content> are validated like documents of their own, those pulled in by src= are not; is_matched answers are a function of the transition and is_true answers of the condition text within one step; in documents with nested histories the spec-function clauses are asserted only for steps whose entry set involves no history element; <foreach> bounded to 2 items in the harness.',
    technique='CBMC code contracts (goto-instrument --dfcc --enforce-contract uscxml_step, loop contract via --loop-contracts-file) on the emitted C per document',
    design='3/C04'),
  'C05': dict(
